@@ -266,8 +266,14 @@ impl<'a> Parser<'a> {
 
             if self.current_token == Token::If {
                 // only the if-expression itself belongs to the chain: what follows it (a `;`,
-                // an operator, an opening bracket) belongs to the outermost if-expression
-                Some(vec![Stmt::Expr(self.parse_if_expr()?)])
+                // an operator, an opening bracket) belongs to the outermost if-expression.
+                // Every `anders als` nests one level deeper (parser, compiler and the
+                // destructor of the tree all recurse into it), so it counts towards MAX_DEPTH
+                self.descend()?;
+                let depth = self.depth;
+                let nested = self.parse_if_expr();
+                self.depth = depth - 1;
+                Some(vec![Stmt::Expr(nested?)])
             } else {
                 Some(self.parse_block_statement()?)
             }
